@@ -57,7 +57,10 @@ func CountingCompare(c *Counter, inner func(a, b interface{}) (int, error)) func
 // together with json.Marshal, so the bytes are those of the default codec.
 func RegisteredUnmarshal(keyLike, valLike interface{}) func([]byte, interface{}) error {
 	kt := reflect.TypeOf(keyLike)
-	vt := reflect.TypeOf(valLike)
+	var vt reflect.Type // nil: set-like tree, every value decodes to nil
+	if valLike != nil {
+		vt = reflect.TypeOf(valLike)
+	}
 	return func(b []byte, dst interface{}) error {
 		n, ok := dst.(*mast.Node)
 		if !ok {
@@ -81,6 +84,9 @@ func RegisteredUnmarshal(keyLike, valLike interface{}) func([]byte, interface{})
 			n.Key[i] = p.Elem().Interface()
 		}
 		for i, v := range raw.Value {
+			if vt == nil {
+				continue
+			}
 			p := reflect.New(vt)
 			if err := json.Unmarshal(v, p.Interface()); err != nil {
 				return err
